@@ -414,6 +414,16 @@ def component_phase(ctx, prop, proved=True):
     oracle = vlib.build_oracle(ctx, "replay")
     src = [os.path.join(vlib.HARNESS, "replay_harness.c"), os.path.join(vlib.REPO, "src/munged/hash.c")]
     exe, err = vlib.cc(ctx, "replayh", src, extra=["-Wl,--wrap=time"], libs=["-lpthread"])
+    if exe is None and "undefined reference" in err:
+        # replay.c has come to use helpers from elsewhere in the tree (e.g. crypto.c's comparison): link them in, so that the
+        # question is put to the code (does it still behave as a replay cache?), not to the linker
+        R = vlib.REPO
+        more = [os.path.join(R, "src/common", f) for f in ("crypto.c", "md.c", "mac.c")] + \
+               sorted(os.path.join(R, "src/libcommon", f) for f in os.listdir(os.path.join(R, "src/libcommon")) if f.endswith(".c")) + \
+               [os.path.join(R, "src/libmissing", f) for f in ("strlcpy.c", "strlcat.c")] + \
+               [os.path.join(R, "src/libmunge", f) for f in ("strerror.c", "enum.c")]
+        exe, err2 = vlib.cc(ctx, "replayh2", src + more, extra=["-Wl,--wrap=time", "-Wl,--allow-multiple-definition"], libs=["-lcrypto", "-lpthread"])
+        err = err if exe is None else ""
     if exe is None:
         ctx.violation("replay harness does not build against /repo (replay.c/hash.c interface changed?): " + err[-500:],
                       {"obligation": "correspondence %s (build)" % prop, "stderr": err}, found_input=False)
